@@ -534,6 +534,9 @@ pub fn required_counters(prop: &str) -> &'static [&'static str] {
             "resume_Head", "resume_Flags", "resume_Time", "resume_Os", "resume_ExLen", "resume_Extra", "resume_Name", "resume_Comment", "resume_HCrc", "resume_Length", "resume_Type", "resume_Stored", "resume_CopyBlock", "resume_Check", "resume_Len",
             "resume_LenExt", "resume_Dist", "resume_DistExt", "resume_Match", "resume_Table", "resume_LenLens", "resume_CodeLens", "resume_DictId", "resume_Dict", "resume_Done", "resume_Bad",
         ],
+        "C10" => &["thread_schedules_explored"],
+        "C11" => &["flush_points_checked"],
+        "C15" => &["totals_checked_after_sync", "trailing_garbage_cases"],
         _ => &[],
     }
 }
@@ -778,7 +781,8 @@ pub fn run_parent(info: &CheckInfo, tier: Tier, extra_cov: Option<Value>) -> i32
     let st = &m.st;
     let fams: serde_json::Map<String, Value> = st.families.iter().map(|(k, v)| (k.clone(), json!(v))).collect();
     let ctrs: serde_json::Map<String, Value> = st.counters.iter().map(|(k, v)| (k.clone(), json!(v))).collect();
-    let exhaustive = crashes == 0 && st.cases == m.total && new_violations.is_empty();
+    let cap_hit = st.counters.iter().any(|(k, v)| k.ends_with("_cap_hit") && *v > 0);
+    let exhaustive = crashes == 0 && st.cases == m.total && new_violations.is_empty() && !cap_hit;
     let mut cov = json!({
         "evaluations": st.cases,
         "executions": st.execs,
